@@ -85,9 +85,9 @@ func thorough(id string, run func(p *Prog, r *Report), repo, verif string, r *Re
 	}
 	// the held-out corpus (heavier refactorings the rules were not tuned on) is analysed too and reported
 	// separately: its alarms are the measured envelope of recognised code shapes (DESIGN.md §9.0.4)
-	hs, _ := filepath.Glob(filepath.Join(verif, "mutants", "benign-heldout", "*.patch"))
+	hs, _ := filepath.Glob(filepath.Join(verif, "mutants", "benign-heldout*", "*.patch"))
 	for _, b := range hs {
-		vs = append(vs, variant{"mutants/benign-heldout/" + filepath.Base(b), b, "heldout"})
+		vs = append(vs, variant{"mutants/" + filepath.Base(filepath.Dir(b)) + "/" + filepath.Base(b), b, "heldout"})
 	}
 	sort.Slice(vs, func(i, j int) bool { return vs[i].name < vs[j].name })
 	self, _ := os.Executable()
